@@ -162,7 +162,9 @@ Init ==
 
 \* observed-head shape of an Impl head (the fields the predicates read)
 AsObserved(ih) ==
-  [status |-> ih.status, cl |-> ih.cl, cr |-> ih.cr, ct |-> ih.ct, ar |-> ih.ar, etag |-> ih.etag,
+  [status |-> ih.status, cl |-> ih.cl, cr |-> ih.cr,
+   ct |-> IF ih.ct.k = "multipart" THEN [ih.ct EXCEPT !.boundary = "B"] @@ [blen |-> 1] ELSE ih.ct,
+   ar |-> IF ih.ar.k = "val" THEN ih.ar @@ [lc |-> "bytes"] ELSE ih.ar, etag |-> ih.etag,
    date |-> ih.date, lm |-> ih.lm, allow |-> ih.allow, eh |-> ih.eh]
 
 DoHead ==
